@@ -432,6 +432,13 @@ pub fn forwarders_contract(s: &mut dyn Src, r: &mut Report) {
       let pf: *const RelFullIndexType<u8, u8> = &f;
       let ok2 = std::ptr::eq(ToRelIndex::<()>::to_rel_index(&f, &()), pf) && std::ptr::eq(&*ToRelIndex::<()>::to_rel_index_write(&mut f, &mut ()), pf);
       chk!(r, "to_rel_index_of_plain_indices_is_identity", ok1 && ok2);
+      // run_rule (segment-codegen wrapper): calls the closure exactly once and returns its result
+      let mut calls = 0u32;
+      let rv = ascent::internal::run_rule(|| {
+         calls += 1;
+         k.wrapping_add(v)
+      });
+      chk!(r, "run_rule_calls_closure_once_and_returns_its_result", calls == 1 && rv == k.wrapping_add(v));
    }
 }
 
